@@ -42,7 +42,9 @@ BOUND = {
     "truncated side chain, every water probe at 2.8 A on 14 directions, "
     "partner poses for one seed-chosen partner residue (all directions x 24 "
     "rotations); every 3-residue window of 1AJJ, 1BX8, cterm_hid (real "
-    "geometry)",
+    "geometry); one chain with a geometric backbone gap x 20 residue types; "
+    "2 deviations: every truncated side chain + a water on the position of "
+    "the rebuilt atom",
     "thorough": "quick + every 3-residue window of all seven bundled "
     "protein structures (1433 windows) + water probes at 3.4 A, partner poses for all 15 "
     "partner residues, 2 deviations (water+water, omitted atom+water), "
@@ -314,6 +316,8 @@ def enumerate_cases(tier, seed):
     cases += s3.clash_cases("AMBER")
     cases += s3.omit_cases("AMBER")
     cases += s3.water_cases("AMBER", dists=(2.8,))
+    cases += s3.gap_cases("AMBER", ("default", "noopt"))
+    cases += s3.rebuilt_clash_cases("AMBER")
     wfiles = (["1AJJ.pdb", "1BX8.pdb", "cterm_hid.pdb"] if tier == "quick"
               else None)
     cases += s3.window_cases("AMBER", wfiles)
